@@ -580,7 +580,24 @@ def muk_fields():
     F.append(('biquadratic', [9, 0, 14, 0, 1], 2, 0, 2))      # Q(sqrt-2, sqrt-5)
     F.append(('biquadratic', [1, 0, -1, 0, 1], 12, 0, 2))     # Q(i, sqrt3) = Q(zeta_12)
     F.append(('biquadratic', [25, 0, 2, 0, 1], 6, 0, 2))      # Q(sqrt-3, sqrt2): (sqrt2 + sqrt-3)^2 = -1 + 2 sqrt-6
+    # non-monic defining polynomials of the same fields: Phi_n(2x) (leading coefficient 2^phi(n)) and reversed real/imaginary quadratics
+    for n in (3, 4, 5, 8, 12):
+        ph = cyclotomic(n); deg = len(ph) - 1
+        F.append(('cyclotomic-nonmonic', [c * 2 ** i for i, c in enumerate(ph)], n if n % 2 == 0 else 2 * n, 0, deg // 2))
+    F.append(('cyclotomic-nonmonic', [1, 2, 4, 8, 16], 10, 0, 2))         # 16x^4 + 8x^3 + 4x^2 + 2x + 1: Q(zeta_5)
+    F.append(('cyclotomic-nonmonic', [1, 0, -4, 0, 16], 12, 0, 2))        # 16x^4 - 4x^2 + 1: Q(zeta_12)
+    F.append(('real-quadratic-nonmonic', [-1, 0, 7], 2, 2, 0))
+    F.append(('imaginary-quadratic-nonmonic', [1, 0, 3], 6, 0, 1))
+    F.append(('imaginary-quadratic-nonmonic', [1, 2, 4], 6, 0, 1))        # 4x^2 + 2x + 1 = Phi_3(2x)
+    F.append(('cubic-nonmonic', [-1, 0, 0, 2], 2, 1, 1))
+    F.append(('cubic-nonmonic', [1, 1, 0, 2], 2, 1, 1))         # 2x^3 + x + 1 (disc -116)
     return F
+
+# polynomials on which Newton's iteration has attracting cycles or large basins of slow convergence: a start that does not
+# converge must be rejected and redrawn, so the count of real/complex embeddings must be right for EVERY seed
+NEWTON_HOSTILE = [('cubic-newton-cycle', [2, -2, 0, 1], 2, 1, 1),        # x^3 - 2x + 2: the 2-cycle 0 <-> 1
+                  ('cubic-newton-cycle', [-2, -2, 0, 1], 2, 1, 1),       # x^3 - 2x - 2 (mirror image)
+                  ('quartic-newton-hostile', [5, 0, -1, 0, 1], 2, 0, 2)] # x^4 - x^2 + 5, no real root (irreducible: disc of t^2 - t + 5 is -19)
 
 def cases(rng, tier):
     th = tier == 'thorough'
@@ -689,6 +706,11 @@ def cases(rng, tier):
     nseeds = 4 if not th else 25
     for tag, f, w, r, s in muk_fields():
         for _ in range(nseeds):
+            seed = rng.getrandbits(63)
+            out.append(Case('find_muk', line('find_muk', f, seed), compare=lambda ia, ma: None, oracle=o_muk(w, r, s),
+                            always_oracle=True, tag='muk-' + tag))
+    for tag, f, w, r, s in NEWTON_HOSTILE[:3]:
+        for _ in range(60 if not th else 400):
             seed = rng.getrandbits(63)
             out.append(Case('find_muk', line('find_muk', f, seed), compare=lambda ia, ma: None, oracle=o_muk(w, r, s),
                             always_oracle=True, tag='muk-' + tag))
